@@ -29,27 +29,29 @@ class World:
         w = self
 
         if is_async:
-            async def work(inp, mark, store, acc=[], opts={"k": []}, aux=None, aux2=None):          # noqa: B006 - mutable defaults on purpose
-                w.keep += [inp, store, acc, opts, aux, aux2]
-                w.records[mark] = {"acc_id": id(acc), "opts_id": id(opts), "store_id": id(store), "inp_id": id(inp), "aux_id": id(aux), "aux2_id": id(aux2)}
+            async def work(inp, mark, store, acc=[], opts={"k": []}, box=([], "log"), aux=None, aux2=None):          # noqa: B006 - mutable defaults on purpose
+                w.keep += [inp, store, acc, opts, box, box[0], aux, aux2]
+                w.records[mark] = {"acc_id": id(acc), "opts_id": id(opts), "box_id": id(box[0]), "store_id": id(store), "inp_id": id(inp), "aux_id": id(aux), "aux2_id": id(aux2)}
                 await w.gate(mark, "resolved")
                 acc.append(mark)
                 opts["k"].append(mark)
+                box[0].append(mark)          # a mutable object INSIDE an immutable default
                 store.append(mark)
                 inp.append(mark)
                 await w.gate(mark, "mutated")
-                w.records[mark]["seen"] = (list(acc), {k: list(v) for k, v in opts.items()})
-                return (tuple(acc), tuple(opts["k"]))
+                w.records[mark]["seen"] = (list(acc), {k: list(v) for k, v in opts.items()}, list(box[0]))
+                return (tuple(acc), tuple(opts["k"]), tuple(box[0]))
         else:
-            def work(inp, mark, store, acc=[], opts={"k": []}, aux=None, aux2=None):                # noqa: B006
-                w.keep += [inp, store, acc, opts, aux, aux2]
-                w.records[mark] = {"acc_id": id(acc), "opts_id": id(opts), "store_id": id(store), "inp_id": id(inp), "aux_id": id(aux), "aux2_id": id(aux2)}
+            def work(inp, mark, store, acc=[], opts={"k": []}, box=([], "log"), aux=None, aux2=None):                # noqa: B006
+                w.keep += [inp, store, acc, opts, box, box[0], aux, aux2]
+                w.records[mark] = {"acc_id": id(acc), "opts_id": id(opts), "box_id": id(box[0]), "store_id": id(store), "inp_id": id(inp), "aux_id": id(aux), "aux2_id": id(aux2)}
                 acc.append(mark)
                 opts["k"].append(mark)
+                box[0].append(mark)          # a mutable object INSIDE an immutable default
                 store.append(mark)
                 inp.append(mark)
-                w.records[mark]["seen"] = (list(acc), {k: list(v) for k, v in opts.items()})
-                return (tuple(acc), tuple(opts["k"]))
+                w.records[mark]["seen"] = (list(acc), {k: list(v) for k, v in opts.items()}, list(box[0]))
+                return (tuple(acc), tuple(opts["k"]), tuple(box[0]))
         self.func = work
         self.bound_obj = []
         # shape "sink": a side-effect-only node (no outputs), like a logger or a gate, still gets fresh defaults
@@ -155,7 +157,7 @@ def verdicts(ctx, w, inputs, results, wit):
     runs = sorted(r for r in results)
     narrowed = bool(w.shape.get("side") and w.shape.get("select_side")) or bool(w.shape.get("sink"))
     d0 = w.func.__defaults__
-    if d0[0] != [] or d0[1] != {"k": []}:
+    if d0[0] != [] or d0[1] != {"k": []} or d0[2] != ([], "log"):
         ctx.violation("signature-default-mutated", wit, f"the function's own default objects now hold {d0}")
         return
     seen_ids = set()
@@ -165,9 +167,9 @@ def verdicts(ctx, w, inputs, results, wit):
         if res.status.value != "completed":
             ctx.violation("run-failed", wit, f"run {r}: {res.status} {res.error}")
             return
-        got = (tuple(rec["seen"][0]), tuple(rec["seen"][1]["k"])) if narrowed else res.values.get("out")
-        if got != ((r,), (r,)):
-            ctx.violation("state-leaked-between-runs", wit, f"run {r} returned {got}, alone it returns {((r,), (r,))}")
+        got = (tuple(rec["seen"][0]), tuple(rec["seen"][1]["k"]), tuple(rec["seen"][2])) if narrowed else res.values.get("out")
+        if got != ((r,), (r,), (r,)):
+            ctx.violation("state-leaked-between-runs", wit, f"run {r} returned {got}, alone it returns {((r,), (r,), (r,))}")
             return
         if narrowed and not set(res.values) <= {"side_out"}:
             raise RuntimeError(f"harness: narrowed graph returned {sorted(res.values)}")
@@ -176,18 +178,18 @@ def verdicts(ctx, w, inputs, results, wit):
             if rec["acc_id"] != id(inputs[r]["acc"]):
                 ctx.violation("provided-value-copied", wit, f"run {r}: the list passed for the default-valued parameter did not reach the node as the caller's object")
                 return
-            seen_ids.add(rec["opts_id"])
+            seen_ids |= {rec["opts_id"], rec["box_id"]}
             if rec["store_id"] != id(w.bound_obj):
                 ctx.violation("bound-value-copied", wit, f"run {r}: the bound object did not reach the node as the very object that was bound")
                 return
             continue
-        if rec["acc_id"] == id(d0[0]) or rec["opts_id"] == id(d0[1]):
+        if rec["acc_id"] == id(d0[0]) or rec["opts_id"] == id(d0[1]) or rec["box_id"] == id(d0[2][0]):
             ctx.violation("default-not-copied", wit, f"run {r} received the function's own default object")
             return
-        if rec["acc_id"] in seen_ids or rec["opts_id"] in seen_ids:
+        if rec["acc_id"] in seen_ids or rec["opts_id"] in seen_ids or rec["box_id"] in seen_ids:
             ctx.violation("default-copy-shared-between-runs", wit, f"run {r} received a default copy another run also received")
             return
-        seen_ids |= {rec["acc_id"], rec["opts_id"]}
+        seen_ids |= {rec["acc_id"], rec["opts_id"], rec["box_id"]}
         if rec["store_id"] != id(w.bound_obj):
             ctx.violation("bound-value-copied", wit, f"run {r}: the bound object did not reach the node as the very object that was bound")
             return
@@ -221,19 +223,19 @@ def replay_mapped(n, is_async, bind_at, via_runner_map, clone=False, swap=False)
 
 def verdicts_mapped(ctx, w, inps, marks, res, wit):
     d0 = w.func.__defaults__
-    if d0[0] != [] or d0[1] != {"k": []}:
+    if d0[0] != [] or d0[1] != {"k": []} or d0[2] != ([], "log"):
         return ctx.violation("signature-default-mutated", wit, f"the function's own default objects now hold {d0}")
     seen_ids = set()
     for r, inp in zip(marks, inps):
         rec = w.records.get(r)
         if rec is None or "seen" not in rec:
             return ctx.violation("run-failed", wit, f"item {r} did not run: {res}")
-        got = (tuple(rec["seen"][0]), tuple(rec["seen"][1]["k"]))
-        if got != ((r,), (r,)):
-            return ctx.violation("state-leaked-between-map-items", wit, f"item {r} saw {got} in its default-valued arguments, alone it sees {((r,), (r,))}")
-        if rec["acc_id"] in seen_ids or rec["opts_id"] in seen_ids:
+        got = (tuple(rec["seen"][0]), tuple(rec["seen"][1]["k"]), tuple(rec["seen"][2]))
+        if got != ((r,), (r,), (r,)):
+            return ctx.violation("state-leaked-between-map-items", wit, f"item {r} saw {got} in its default-valued arguments, alone it sees {((r,), (r,), (r,))}")
+        if rec["acc_id"] in seen_ids or rec["opts_id"] in seen_ids or rec["box_id"] in seen_ids:
             return ctx.violation("default-copy-shared-between-map-items", wit, f"item {r} received a default copy another item also received")
-        seen_ids |= {rec["acc_id"], rec["opts_id"]}
+        seen_ids |= {rec["acc_id"], rec["opts_id"], rec["box_id"]}
         if rec["store_id"] != id(w.bound_obj):
             return ctx.violation("bound-value-copied", wit, f"item {r}: the bound object did not reach the node as the very object that was bound")
         if rec["inp_id"] != id(inp):
